@@ -393,7 +393,26 @@ class ContractSet:
         if not self.traces:
             raise MachineryError(f"{self.part}: no contract traces recorded")
         wire = [{"bounds": t["bounds"], "ev": [{"name": e["name"], "mag": e["mag"]} for e in t["ev"]]} for t in self.traces]
-        states, rej = validate_traces(SPEC / "lib" / "Contracts.tla", SPEC / "cfg" / "Contracts.cfg", wire, timeout=timeout)
+        # batch configuration: TLC evaluates the bounds per trace through registers and reports ALL offending traces
+        rej, states = {}, 0
+        for base in range(0, len(wire), 3000):
+            part = wire[base:base + 3000]
+            wd = workdir("contracts")
+            try:
+                tf = wd / "traces.json"
+                tf.write_text(json.dumps(part))
+                r = tlc(SPEC / "lib" / "Contracts.tla", SPEC / "cfg" / "Contracts.batch.cfg", workers=1, env={"TRACE_FILE": str(tf)}, timeout=timeout)
+            finally:
+                shutil.rmtree(wd, ignore_errors=True)
+            if r.error or not r.finished or r.rc == 124:
+                raise MachineryError(f"contract validation failed to run: {r.error}\n{r.out[-3000:]}")
+            states += r.distinct
+            for tag, why in (("REJECTED", "rejected"), ("OUTOFBOUNDS", "bound"), ("UNOBSERVED", "unobserved")):
+                m = re.search(r'<<\s*"%s",\s*\{(.*?)\}\s*>>' % tag, r.out, re.S)
+                if m is None:
+                    raise MachineryError(f"Contracts.tla did not print a {tag} line\n" + r.out[-3000:])
+                for t_, l_ in re.findall(r"<<(\d+), (\d+)>>", m.group(1)):
+                    rej.setdefault(base + int(t_) - 1, (why, ""))
         self.ck.cov["traces_validated_against_impl"] += len(wire)
         worst, margin = {}, {}
         for t in self.traces:
@@ -407,10 +426,14 @@ class ContractSet:
             t = self.traces[tix]
             bad = [e for e in t["ev"] if e["name"] in t["bounds"] and e["mag"] > t["bounds"][e["name"]]]
             if bad:
-                e = bad[0]
-                key = key_fn(t, e["name"]) if key_fn else f"{self.part}|contract:{e['name']}"
-                self.ck.violation(key, f"{t['label']}: {e['name']} = {e['value']!r} (10^{e['mag'] / 10:.1f}) exceeds bound "
-                                       f"10^{t['bounds'][e['name']] / 10:.1f}", {"label": t["label"], "trace": t["ev"], "cfg": t["data"]})
+                seen_names = set()
+                for e in bad:
+                    if e["name"] in seen_names:
+                        continue
+                    seen_names.add(e["name"])
+                    key = key_fn(t, e["name"]) if key_fn else f"{self.part}|contract:{e['name']}"
+                    self.ck.violation(key, f"{t['label']}: {e['name']} = {e['value']!r} (10^{e['mag'] / 10:.1f}) exceeds bound "
+                                           f"10^{t['bounds'][e['name']] / 10:.1f}", {"label": t["label"], "trace": t["ev"], "cfg": t["data"]})
             else:
                 missing = [n for n in t["bounds"] if n not in {e["name"] for e in t["ev"]}]
                 raise MachineryError(f"{self.part}: contract trace '{t['label']}' rejected without a bound violation "
